@@ -7,7 +7,8 @@
    clauses of Spec/Shape.v. *)
 From Coq Require Import List Arith NArith Bool Lia Strings.String FinFun.
 From Coq Require Strings.Byte.
-From V Require Import Base.Bytes Base.Res Model.Ast Model.Tagfilter0 Model.Html Spec.HtmlSpec Spec.Shape Spec.NestSpec.
+From V Require Import Base.Bytes Base.Res Model.Ast Model.Tagfilter Model.Html Spec.HtmlSpec Spec.Shape Spec.NestSpec.
+From V Require Proofs.TagfilterProofs.
 Import ListNotations.
 Local Open Scope string_scope.
 Local Open Scope list_scope.
@@ -464,22 +465,10 @@ Qed.
 
 (* ------------------------------------------------------------------ tagfilter never fails *)
 Lemma tagfilter_total l : exists b, tagfilter l = Ok b.
-Proof.
-  unfold tagfilter. destruct l as [|c0 [|c1 [|c2 r]]]; try (eexists; reflexivity).
-  destruct (negb (beqb c0 x3c)); [eexists; reflexivity|].
-  match goal with |- context [first_match ?a ?b] => destruct (first_match a b) as [[cj after]|] end;
-    eexists; reflexivity.
-Qed.
-
-Lemma tagfilter_block_go_total : forall s out, exists b, tagfilter_block_go s out = Ok b.
-Proof.
-  induction s as [|c r IH]; intro out; cbn [tagfilter_block_go]; [eexists; reflexivity|].
-  destruct (beqb c x3c); [|apply IH].
-  destruct (tagfilter_total (c :: r)) as [t ->]. cbn [bind]. apply IH.
-Qed.
+Proof. exact (TagfilterProofs.tagfilter_total l). Qed.
 
 Lemma tagfilter_block_total s : exists b, tagfilter_block s = Ok b.
-Proof. apply tagfilter_block_go_total. Qed.
+Proof. exact (TagfilterProofs.tagfilter_block_total s). Qed.
 
 (* ------------------------------------------------------------------ totality *)
 Ltac tot :=
